@@ -36,6 +36,13 @@ REQUIRED_COUNTERS = ["undef_cases", "multidef_cases", "nfold_insertions",
 
 
 def gen_case(rng, tier, index):
+    if index % 9 == 8:
+        # one Assembler object used for a second result after finalize()
+        isa, fmt = rng.choice([("x64", "elf"), ("x64", "pe"),
+                               ("arm64", "elf")])
+        return {"w": "reuse", "isa": isa, "fmt": fmt,
+                "allow_undef": rng.random() < 0.5,
+                "temp": rng.random() < 0.4}
     w = index % 4
     if w == 0:
         c = c12.gen_case(rng, tier, index)
@@ -88,6 +95,8 @@ def gen_case(rng, tier, index):
                                    "function"]),
                 "shape": rng.choice(["loop", "skip", "both", "data-ref"]),
                 "global_label": rng.random() < 0.3,
+                # every copy defines the very same global name
+                "same_global": rng.random() < 0.15,
                 "set_const": rng.random() < 0.3}
     c = c12.gen_case(rng, tier, index)
     c["w"] = "chunks"
@@ -271,6 +280,55 @@ def second_reference(c, text, unknown):
             "msg": f"{name} after {first!r}"}
 
 
+def run_reuse(c):
+    """an Assembler keeps nothing of a finished result: names defined for the
+    first result are unknown (and free to be defined again) afterwards"""
+    from gtirb_rewriting.assembler import (Assembler,
+                                           MultipleDefinitionsError,
+                                           UndefSymbolError)
+    viol, ctr = [], {"assembler_reuses": 1}
+    isa = c["isa"]
+    cc = {"isa": isa, "fmt": c["fmt"], "pie": False}
+    m, msyms = c12.target_module(cc)
+    pre = ".L" if c["temp"] else ""
+    lab = pre + "first_only"
+    nop = vocab.asm_text(isa, "nop")
+    jmp = vocab.asm_text(isa, "jmp", lab)
+    asm = Assembler(m, allow_undef_symbols=c["allow_undef"])
+    asm.assemble(f"{lab}:\n{nop}\n{jmp}\n")
+    r1 = asm.finalize()
+    # 1: the name is unknown now
+    try:
+        asm.assemble(f"{nop}\n{jmp}\n")
+        r2 = asm.finalize()
+        if not c["allow_undef"]:
+            viol.append({"key": "reuse:earlier-result's-name-still-known",
+                         "msg": lab})
+        else:
+            ss = [s for s in r2.symbols if s.name == lab]
+            if len(ss) != 1 or not isinstance(ss[0].referent,
+                                              gtirb.ProxyBlock) or \
+                    any(s is ss[0] for s in r1.symbols):
+                viol.append({"key": "reuse:no-fresh-proxy-symbol",
+                             "msg": f"{len(ss)}"})
+    except UndefSymbolError:
+        if c["allow_undef"]:
+            viol.append({"key": "reuse:undef-rejected-although-allowed",
+                         "msg": lab})
+        asm = Assembler(m, allow_undef_symbols=c["allow_undef"])
+        asm.assemble(f"{lab}:\n{nop}\n")
+        asm.finalize()
+    # 2: and may be defined again
+    try:
+        asm.assemble(f"{lab}:\n{nop}\n")
+        asm.finalize()
+    except MultipleDefinitionsError:
+        viol.append({"key": "reuse:redefinition-after-finalize-refused",
+                     "msg": lab})
+    return {"sig": f"reuse:{isa}-{c['fmt']}:{int(c['allow_undef'])}"
+                   f"{int(c['temp'])}", "violations": viol, "counters": ctr}
+
+
 def run_multidef(c):
     from gtirb_rewriting.assembler import MultipleDefinitionsError
     viol, ctr = [], {"multidef_cases": 1}
@@ -360,7 +418,9 @@ def run_nfold(c):
         def get_asm(self, ctx):
             calls.append(ctx.block)
             t = text
-            if c["global_label"]:
+            if c.get("same_global"):
+                t = "glob_same:\n" + t
+            elif c["global_label"]:
                 t = f"glob_{len(calls)}:\n" + t
             return t
     fns = []
@@ -379,9 +439,18 @@ def run_nfold(c):
     try:
         ctx.apply()
     except Exception as e:  # noqa
+        if c.get("same_global") and n > 1 and \
+                type(e).__name__ == "MultipleDefinitionsError":
+            ctr["nfold_same_global_refused"] = 1
+            return {"sig": f"nfold:{isa}:same-global:{n}", "violations": [],
+                    "counters": ctr}
         return {"sig": None, "violations": [{
             "key": f"nfold:raises-{type(e).__name__}",
             "msg": f"{e!r}\n{text}"[:800]}], "counters": ctr}
+    if c.get("same_global") and n > 1:
+        return {"sig": None, "violations": [{
+            "key": "nfold:same-global-name-accepted",
+            "msg": f"{n} copies"}], "counters": ctr}
     ctr["nfold_insertions"] = len(calls)
     if len(calls) != n:
         viol.append({"key": "nfold:wrong-number-of-invocations",
@@ -570,4 +639,5 @@ def run_chunks(c):
 
 def run_case(c):
     return {"undef": run_undef, "multidef": run_multidef,
-            "nfold": run_nfold, "chunks": run_chunks}[c["w"]](c)
+            "nfold": run_nfold, "chunks": run_chunks,
+            "reuse": run_reuse}[c["w"]](c)
